@@ -22,7 +22,7 @@ from .values import (
     to_string,
     to_number,
 )
-from .errors import JSError, MemoryLimitError, TimeLimitError
+from .errors import JSError, JSTypeError, MemoryLimitError, TimeLimitError
 
 
 class Context:
@@ -270,6 +270,12 @@ class Context:
             if proto is NULL or proto is None:
                 obj._prototype = None
             elif isinstance(proto, JSObject):
+                # A prototype chain must stay acyclic (ECMAScript throws a TypeError)
+                link = proto
+                while link is not None:
+                    if link is obj:
+                        raise JSTypeError("Cyclic __proto__ value")
+                    link = link._prototype
                 obj._prototype = proto
             return obj
 
